@@ -88,6 +88,25 @@ Proof.
 Qed.
 Print Assumptions C02_dedup_sound.
 
+(* every variable selected, WITH the de-duplication in place: nothing is ever dropped - the de-duplicating evaluator returns the
+   P-model's rows, in the same order (the rows a node emits are pairwise disjoint, and with every variable required a recorded
+   row can only swallow a row that extends it); so every satisfying assignment is returned exactly once *)
+Theorem C02_all_selected_no_dedup : forall h dom U,
+  (forall x, In x U -> NoDup (dom x)) -> (forall x, In x U -> dom x <> []) -> forall sel c, basic U c = true -> incl U (req_top sel) ->
+  run_queryD h dom sel (Some c) = run_query h dom sel (Some c).
+Proof. exact all_selected_no_dedup. Qed.
+Print Assumptions C02_all_selected_no_dedup.
+
+Theorem C02_all_selected_dedup : forall h dom U sc ic e,
+  (forall x, In x U -> NoDup (dom x)) -> (forall x, In x U -> dom x <> []) -> sbasic U sc = true -> elab sc = Some ic -> valid dom U e ->
+  count_row (map e U) (run_queryD h dom (map TVar U) (Some ic)) = if sat h dom sc e then 1 else 0.
+Proof.
+  intros h dom U sc ic e ND NE S E V.
+  rewrite (all_selected_no_dedup h dom U ND NE (map TVar U) ic (elab_basic U sc ic E S) (req_top_vars U)).
+  rewrite (all_selected_count h dom U ND ic e (elab_basic U sc ic E S) V), (elab_sat h dom sc ic E e). reflexivity.
+Qed.
+Print Assumptions C02_all_selected_dedup.
+
 (* the invariant behind them: over ALL activations of a node in one evaluation, whatever an activation should serve is covered by
    an emitted row with the same truth value that agrees with it on the variables the node's parent requires *)
 Theorem C02_dedup_cover : forall h dom U,
